@@ -46,4 +46,32 @@ static void *v_reallocarray(void *p, size_t nm, size_t sz) {
 #define calloc v_calloc
 #define reallocarray v_reallocarray
 #endif /* !REPLAY */
+
+/* Specification stub for a lower layer (DESIGN 1.3): realloc_items() of utils/mem_utils.h, used by ini.c and bt_encode.c to
+ * grow their pointer arrays in blocks of 64.  The real function is checked on its own in mem.c (jobs mem-cmp-*: after
+ * return *allocated > count, slot [count] writable, earlier items preserved, new memory zeroed).  Arrays of 64 pointers
+ * kept in a uint8_t-typed realloc block cost CBMC gigabytes (byte-wise pointer encoding), so ini/bencode harnesses define
+ * C12_SPEC_REALLOC_ITEMS and run against this contract implementation: an array of exactly count + 1 items (tighter
+ * than the real pre-allocation, so any access beyond [count] is an object-bounds violation).  CBMC only; replays run the
+ * real realloc_items. */
+#if defined(C12_SPEC_REALLOC_ITEMS) && !defined(REPLAY)
+#include <stdint.h>
+static int spec_realloc_items(void **items, const size_t item_size, size_t *allocated,
+    const size_t alloc_blk_cnt, const size_t count) {
+	if (NULL == items || NULL == allocated || 0 == alloc_blk_cnt) return (EINVAL);
+	if (NULL != (*items) && (*allocated) > count) return (0);
+	size_t n = count + 1, keep = ((NULL != (*items)) ? (*allocated) : 0);
+	if (keep > n) keep = n;
+	uint8_t *nw = (uint8_t *)malloc(n * item_size);
+	__CPROVER_assume(nw != NULL);
+	if (keep) memcpy(nw, (*items), keep * item_size);
+	memset(nw + keep * item_size, 0x00, (n - keep) * item_size);
+	free((*items));
+	(*items) = nw;
+	(*allocated) = n;
+	return (0);
+}
+#include "utils/mem_utils.h"
+#define realloc_items spec_realloc_items
+#endif
 #endif
